@@ -44,7 +44,7 @@ def build_tree(r, root):
         used.add((d, nm))
         files.append(posixpath.join(d, nm) if d else nm)
     final_value = r.randint(1000, 9999)
-    error = r.choice([None, None, None, None, "type-string", "type-ident", "type-call", "angle", "angle-slash", "missing"])
+    error = r.choice([None, None, None, None, None, "type-string", "type-ident", "type-call", "angle", "angle-slash", "missing", "missing-noext"])
     contents = {}
     decoy_vals = {}
     spellings = []
@@ -81,8 +81,12 @@ def build_tree(r, root):
                 arg = "<nixpkgs/lib>"
             elif error == "missing":
                 arg = (lit[:-4] if lit.endswith(".nix") else lit) + "-absent.nix"
+            elif error == "missing-noext":
+                # the literal names no file although `<literal>.nix` exists: still a missing target
+                arg = lit[:-4] if lit.endswith(".nix") and not lit[:-4].endswith("/.") and "/" in lit[:-4] else lit + "-absent"
         elif style == "paren":
-            arg = "(" + lit + ")"
+            k = r.choice([1, 1, 2, 3])
+            arg = "(" * k + lit + ")" * k
         # what separates `import` from its argument is layout, not part of the call
         sep = r.choice([" ", " ", " ", "\n    ", "\t", " /* c */ ", "  "]) if not arg.startswith("(") else r.choice([" ", " ", "", "\n    "])
         contents[f] = "{\n  v = import%s%s;\n  other = %d;\n}\n" % (sep, arg, 100 + i)
@@ -164,7 +168,7 @@ def judge(r, root):
                     what = "wrong-file" if kind == "value" else f"raises:{type(res).__name__}"
                     fails.append((f"{what}|cwd:{'root' if cwd == root else 'sub' if cwd.startswith(root) else 'outside'}|entry:{spelling}", {"expected": final_value, "got": res if kind == "value" else repr(res)[:120], "files": files, "cwd": cwd}))
             else:
-                want = {"type-string": TypeError, "type-ident": TypeError, "type-call": TypeError, "angle": ValueError, "angle-slash": ValueError, "missing": OSError}[error]
+                want = {"type-string": TypeError, "type-ident": TypeError, "type-call": TypeError, "angle": ValueError, "angle-slash": ValueError, "missing": OSError, "missing-noext": OSError}[error]
                 if kind == "value":
                     fails.append((f"error-case-returned-value|{error}", {"got": res, "files": files, "cwd": cwd}))
                 elif not isinstance(res, want):
